@@ -272,7 +272,7 @@ package tabular
 //@ pred opaque cbsLive(s callbackSet) = (forall i int :: {s.addTime[i]} 0 <= i && i < len(s.addTime) ==> s.addTime[i] != nil) && (forall i int :: {s.renderTime[i]} 0 <= i && i < len(s.renderTime) ==> s.renderTime[i] != nil) && (forall i int :: {s.preCellRenderTime[i]} 0 <= i && i < len(s.preCellRenderTime) ==> s.preCellRenderTime[i] != nil) && (forall i int :: {s.postCellRenderTime[i]} 0 <= i && i < len(s.postCellRenderTime) ==> s.postCellRenderTime[i] != nil)
 
 //@ -- cellsOK(r): every cell of r knows its row and its 1-based column (W3)
-//@ pred opaque cellsOK(r *Row) = forall j int :: {r.cells[j].columnNum} {r.cells[j].inRow} 0 <= j && j < len(r.cells) ==> r.cells[j].columnNum == j+1 && r.cells[j].inRow == r
+//@ pred opaque cellsOK(r *Row) = forall j int :: {r.cells[j].columnNum} {r.cells[j].inRow} {r.cells[j].mustCalc} 0 <= j && j < len(r.cells) ==> r.cells[j].columnNum == j+1 && r.cells[j].inRow == r && !r.cells[j].mustCalc
 
 //@ -- cellsOwn(r): the property chain and callback lists of every cell of r are well-formed (input invariant A-chains)
 //@ pred opaque cellsOwn(r *Row) = forall j int :: {r.cells[j].properties} 0 <= j && j < len(r.cells) ==> chainOK(heap[valueProperty.chain], heap[valueProperty.key], heap[valueProperty.val], r.cells[j].properties) && cbsLive(r.cells[j].callbacks)
@@ -498,7 +498,7 @@ package tabular
 //@   requires r != nil && rowOwn(r) && len(r.cells) <= 1099511627774 && cbsLive(r.rowCellCallbacks)
 //@   requires [row-shape] r.inTable == nil ==> (r.isSeparator ==> r.cells == nil) && (r.cells != nil ==> WFrow(r))
 //@   requires [row-attached] r.inTable != nil ==> attached(r)
-//@   requires [cell-ok] chainOK(heap[valueProperty.chain], heap[valueProperty.key], heap[valueProperty.val], c.properties) && cbsLive(c.callbacks)
+//@   requires [cell-ok] chainOK(heap[valueProperty.chain], heap[valueProperty.key], heap[valueProperty.val], c.properties) && cbsLive(c.callbacks) && !c.mustCalc
 //@   assigns when r.cells != nil: r.cells, when r.cells != nil: elemscap(r.cells), r.ErrorContainer, new(ErrorContainer), when r.ErrorContainer != nil: r.ErrorContainer.errors_, when r.ErrorContainer != nil: elemscap(r.ErrorContainer.errors_), when r.inTable != nil: r.inTable.columns, when r.inTable != nil: r.inTable.nColumns, when r.inTable != nil: elemscap(r.inTable.columns), new(column), new(valueProperty), ghost cbErrN, ghost cbErrLog
 //@   ensures [returns-row] result == r
 //@   ensures [error-container] (old(r.ErrorContainer) != nil ==> r.ErrorContainer == old(r.ErrorContainer)) && (old(r.ErrorContainer) == nil && r.ErrorContainer != nil ==> fresh(r.ErrorContainer) && fresh(r.ErrorContainer.errors_)) && rowOwn(r) @C11
@@ -795,3 +795,46 @@ package tabular
 //@   loop#3 invariant forall k int :: {t.rows[k]} 0 <= k && k < len(t.rows) ==> stageR[t.rows[k]] == old(stageR)[t.rows[k]] + 2
 //@   loop#3 invariant forall k int, j int :: {stage[&t.rows[k].cells[j]]} 0 <= k && k < len(t.rows) && 0 <= j && j < len(t.rows[k].cells) ==> stage[&t.rows[k].cells[j]] == old(stage)[&t.rows[k].cells[j]] + 8
 //@   loop#3 decreases len(t.columns) - rangeindex
+
+//@ -- ---------------------------------------------------------------------
+//@ -- the Table interface as the renderers use it: verified for a renderer wrapped directly around a
+//@ -- core table (dynamic type *ATable); deeper wrapper nesting is the delegation argument of C10
+//@ -- ---------------------------------------------------------------------
+
+//@ iface Table.InvokeRenderCallbacks
+//@   dispatch (*ATable).InvokeRenderCallbacks
+//@ iface Table.NColumns
+//@   dispatch (*ATable).NColumns
+//@ iface Table.NRows
+//@   dispatch (*ATable).NRows
+//@ iface Table.Headers
+//@   dispatch (*ATable).Headers
+//@ iface Table.AllRows
+//@   dispatch (*ATable).AllRows
+//@ iface Table.Column
+//@   dispatch (*ATable).Column
+//@ iface Table.RegisterPropertyCallback
+//@   dispatch (*ATable).RegisterPropertyCallback
+
+//@ -- tbl(x): x is a core table satisfying the representation invariant and the chain invariant
+//@ pred tbl(x Iface) = dyn(x) == type[*ATable] && WF(x.(*ATable)) && propsOK(x.(*ATable))
+
+//@ -- nonsep(rows, i): number of non-separator rows among the first i rows
+//@ spec rec nonsep(hr (Array Loc Loc), hs (Array Loc Bool), rows Slice, i int) int = i <= 0 ? 0 : nonsep(hr, hs, rows, i-1) + (hs[fldloc(hr[elemloc(rows, i-1)], 6)] ? 0 : 1)
+
+//@ lemma nonsep_bounds(hr (Array Loc Loc), hs (Array Loc Bool), rows Slice, i int)
+//@   requires 0 <= i
+//@   ensures 0 <= nonsep(hr, hs, rows, i) && nonsep(hr, hs, rows, i) <= i
+//@   decreases i
+//@   unfold nonsep(hr, hs, rows, i)
+//@   use nonsep_bounds(hr, hs, rows, i-1)
+//@   tags C05,C07,C08
+
+//@ lemma nonsep_mono(hr (Array Loc Loc), hs (Array Loc Bool), rows Slice, a int, c int)
+//@   requires 0 <= a && a < c
+//@   ensures nonsep(hr, hs, rows, a) + (hs[fldloc(hr[elemloc(rows, a)], 6)] ? 0 : 1) <= nonsep(hr, hs, rows, c) && nonsep(hr, hs, rows, a) >= 0
+//@   decreases c
+//@   unfold nonsep(hr, hs, rows, c)
+//@   use nonsep_mono(hr, hs, rows, a, c-1)
+//@   use nonsep_bounds(hr, hs, rows, a)
+//@   tags C05,C07,C08
